@@ -232,8 +232,11 @@ class ModelMixin:
             # typed(x, "hint"): view a boxed value at a type (adds the type assumption)
             v = a[0]
             npc = len(st.pc)
-            out = self.from_val(st, box(v), e.args[1].value)
-            del st.pc[npc:]          # a view, not an assumption (it is used under implies/ite guards)
+            bv_ = box(v)
+            out = self.from_val(st, bv_, e.args[1].value)
+            del st.pc[npc:]          # a view, not a type assumption (it is used under implies/ite guards) ...
+            # ... except E11: whatever reference a value holds is an allocated object
+            st.assume(z3.Implies(Val.is_RefV(bv_), z3.And(Val.rv(bv_) >= 1, Val.rv(bv_) <= self.harr(st, "$alloc"))))
             return out
         if name == "is_none":
             return SV("bool", box(a[0]) == NoneV)
@@ -305,7 +308,11 @@ class ModelMixin:
                 bx = box(x)
                 r = Val.rv(bx)
                 expect = z3.If(Val.is_RefV(bx), z3.Store(expect, r, z3.Select(cur, r)), expect)
-            return SV("bool", cur == expect)
+            q = z3.Int("r!oc")
+            a0 = st.heap0["$alloc"]
+            # objects allocated since the old state are exempt (their cells did not exist)
+            return SV("bool", z3.ForAll([q], z3.Implies(q <= a0, z3.Select(cur, q) == z3.Select(expect, q)),
+                                        patterns=[z3.Select(cur, q)]))
         if name == "unchanged_old":
             # every object that existed before keeps its `attr` (new objects are unconstrained)
             comp = e.args[0].value
@@ -543,6 +550,8 @@ class ModelMixin:
             return [Res(st, SV("str", str_of(box(v)) if which == "str" else fmt2(z3.StringVal("repr"), z3.Unit(box(v)))))]
         if v.k == "cls":
             return [Res(st, SV("str", fmt2(z3.StringVal(which + "-cls"), z3.Unit(box(v)))))]
+        if v.k == "obj" and v.h == "UUID" and which == "str":
+            return [Res(st, SV("str", Val.sv(self.hget(st, "$uuid_str", v.t))))]
         if v.k == "tuple":
             raise Unsupported("str of static tuple")
         # anything else: user-defined __str__/__repr__ may do anything
